@@ -415,8 +415,73 @@ def stft_gap_previous_length_sweep(ctx):
                               tags=dict(clause="history_independence", computer="stft"))
 
 
+def copy_and_buffer_probe(ctx):
+    """(a) a copy (copy.deepcopy / pickle round trip) taken MID-utterance is a computer too: once it is not mid-utterance
+    (finalized if it says it is started) it behaves like a fresh instance; (b) a caller that refills ONE preallocated array
+    for every utterance (same object, new contents) gets each utterance's own features"""
+    from pydrobert.speech import compute, filters
+
+    bank = filters.TriangularOverlappingFilterBank("mel", num_filts=4, sampling_rate=8000)
+    gbank = filters.GaborFilterBank("mel", num_filts=8, low_hz=100.0, high_hz=2000.0, sampling_rate=8000)
+    makers = [("stft causal", lambda: compute.STFTFrameComputer(bank, frame_shift_ms=5.0, frame_style="causal")),
+              ("stft centered", lambda: compute.STFTFrameComputer(bank, frame_shift_ms=5.0, frame_style="centered")),
+              ("si centered", lambda: compute.SIFrameComputer(gbank, frame_shift_ms=2.0, frame_style="centered"))]
+    rs = np.random.RandomState(81)
+    for name, mk in makers:
+        L = mk().frame_length
+        x1, x2 = rs.randn(2 * L + 17), rs.randn(3 * L + 5)
+        ref_parts = []
+        f = mk()
+        for c in (x2[:L + 3], x2[L + 3:]):
+            ref_parts.append(f.compute_chunk(c))
+        ref_parts.append(f.finalize())
+        ref = np.concatenate(ref_parts)
+        for how in ("deepcopy", "pickle"):
+            case = dict(computer=name.split()[0], config=name, probe="copy taken mid-utterance", copy=how, L=L)
+            ctx.case(case, kind="copy_mid_utterance:" + name.split()[0])
+            try:
+                a = mk()
+                a.compute_chunk(x1[: L + L // 2 + 1])          # an utterance in progress, samples buffered
+                cl = dict(common.clone_routes(a))[how]
+                if isinstance(cl, Exception):
+                    raise cl
+                said_started = bool(cl.started)
+                if said_started:
+                    cl.finalize()
+                parts = [cl.compute_chunk(x2[:L + 3]), cl.compute_chunk(x2[L + 3:]), cl.finalize()]
+                got = np.concatenate(parts)
+            except Exception as e:
+                ctx.violation(case, "no exception", "%s: %s" % (type(e).__name__, str(e)[:150]), "history of calls raises",
+                              tags=dict(clause="raises", computer=name.split()[0], exc=type(e).__name__))
+                continue
+            if got.shape != ref.shape or got.tobytes() != ref.tobytes():
+                ctx.violation(case, "bit-identical to a fresh instance", "differs (copy said started=%s)" % said_started,
+                              "a computer that is not mid-utterance behaves like a fresh instance (here: a %s copy)" % how,
+                              tags=dict(clause="history_independence", computer=name.split()[0]))
+        # (b) one preallocated array, refilled in place between utterances
+        case = dict(computer=name.split()[0], config=name, probe="same array object refilled between compute_full calls", L=L)
+        ctx.case(case, kind="buffer_refilled:" + name.split()[0])
+        try:
+            a = mk()
+            buf = np.empty(len(x2))
+            buf[:] = rs.randn(len(x2))
+            a.compute_full(buf)
+            buf[:] = x2
+            got = a.compute_full(buf)
+            want = mk().compute_full(x2.copy())
+        except Exception as e:
+            ctx.violation(case, "no exception", "%s: %s" % (type(e).__name__, str(e)[:150]), "history of calls raises",
+                          tags=dict(clause="raises", computer=name.split()[0], exc=type(e).__name__))
+            continue
+        if got.shape != want.shape or got.tobytes() != want.tobytes():
+            ctx.violation(case, "bit-identical to a fresh instance", "differs", "after a completed compute_full the next utterance's "
+                          "features are those of a fresh instance (the caller reuses one array object for every utterance)",
+                          tags=dict(clause="history_independence", computer=name.split()[0]))
+
+
 def library_history_oracle(ctx):
     """library banks, STFT and SI: history-laden instance vs fresh instance, bit-identical"""
+    copy_and_buffer_probe(ctx)
     si_history_correspondence(ctx)
     si_previous_length_sweep(ctx)
     stft_gap_previous_length_sweep(ctx)
